@@ -11,10 +11,7 @@ T_CORR = " + model/implementation correspondence check (rdflib run against the G
 
 CLAIMED = {
     "C18": dict(
-        text="Proof: for every initial content and every history of add/remove(pattern)/commit/rollback of one or two auditable "
-             "wrappers over one store the model's store content satisfies the rollback/commit specification (Coq theorems "
-             "C18_two_wrappers, C18_rollback_restores_commit_keeps, by a log invariant and induction over the history). The model "
-             "is tied to auditable.py by differential runs on generated and exhaustively enumerated histories evaluated in Coq.",
+        text="Proof: for every initial content and every history of add/remove(pattern)/commit/rollback of one or two auditable wrappers over one store, incl. bulk adds, the model's store content satisfies the rollback/commit specification (C18_two_wrappers, C18_rollback_restores_commit_keeps, C18_batches: log invariant, induction over the history); the wrapper composed with a CONCRETE store refines that model for any store satisfying three exactness laws, which C01 proves of the Memory model of memory.py (C18_over_any_store, C18_over_memory_refines up to log permutation, C18_over_memory_rollback_restores in terms of the store's own membership function); the specification checker provably depends only on which quads an observation holds (C18_spec_respects_set_equality). Tied to auditable.py and memory.py by differential runs on generated and exhaustively enumerated histories evaluated in Coq (suites auditable, auditable_batch, auditable_memory).",
         design="0, 7/C18", technique="Coq proof (log invariant + simulation by induction over histories)" + T_CORR),
     "C01": dict(
         text='Proof: on a faithful Gallina model of SimpleMemory and Memory (three nested insertion-ordered dict indexes, per-triple context map with default-context compression, context->triples map) and of the Graph layer: the store invariant is preserved, add/remove change exactly the target graph (all 8 wildcard shapes) and leave every other graph unchanged, triples(pattern) is a duplicate-free exact enumeration for all 8 shapes and any graph, whole histories incl. += -= and + - * ^ whose results stay in play equal the mathematical set result (C01_history, C01_setops, C01_binop_result_in_play), and for every schedule of opens, steps and mutations no iterator step raises and every yielded triple matched and was in the graph at some state since the open (C01_iter_sound, full strength after two fix: commits). Tied to memory.py/graph.py by differential histories and iterator/mutation schedules.',
